@@ -9,14 +9,14 @@ from props.c10 import run_cleanup
 
 def run(ctx):
     if ctx.quick:
-        run_lifecycle(ctx, bfs=[("F1", 2, 0), ("S1", 2, 0), ("S2", 2, 0), ("S3", 2, 0)], emit=[("S0", 1, 0)],
+        run_lifecycle(ctx, bfs=[("F1", 2, 0), ("S1", 2, 0), ("S2", 2, 0), ("S3", 2, 0)], emit=[("S0", 1, 0), ("H0", 1, 0)],
                       sim=[("F1", 4, 0, 250, 18), ("S1", 3, 0, 150, 18), ("S2", 3, 0, 100, 18), ("S3", 3, 0, 150, 18), ("F2", 4, 3, 150, 16)], leak=("F1", 40))
         run_fanout(ctx, bfs=[("A", 4, 2)], emit=[], sim=[("A", 10, 3, 150, 18), ("D", 10, 3, 150, 18)])
         run_republish(ctx)
         run_cleanup(ctx)
     else:
-        run_lifecycle(ctx, bfs=[("F1", 3, 0), ("S1", 3, 0), ("S2", 3, 0), ("S3", 3, 0)], emit=[("F1", 1, 0), ("S0", 2, 0)],
-                      sim=[("F1", 6, 0, 3000, 26), ("S1", 5, 0, 1500, 24), ("S2", 5, 0, 1000, 24), ("S3", 5, 0, 1500, 24), ("F2", 5, 4, 1500, 22)], leak=("F1", 200))
+        run_lifecycle(ctx, bfs=[("F1", 3, 0), ("S1", 3, 0), ("S2", 3, 0), ("S3", 3, 0)], emit=[("F1", 1, 0), ("S0", 2, 0), ("H0", 2, 0)],
+                      sim=[("F1", 6, 0, 3000, 26), ("S1", 5, 0, 1500, 24), ("S2", 5, 0, 1000, 24), ("S3", 5, 0, 1500, 24), ("F2", 5, 4, 1500, 22), ("H1", 5, 0, 1000, 24), ("F3", 5, 4, 1000, 22)], leak=("F1", 200))
         run_fanout(ctx, bfs=[("A", 5, 2), ("D", 4, 2)], emit=[("A", 3, 2)],
                    sim=[("A", 12, 3, 1500, 24), ("D", 12, 3, 1500, 26)])
         run_republish(ctx)
